@@ -463,7 +463,7 @@ func (cd *cmdDispatcher) dispatchHandler(ctx *cmdContext) (output respValue) {
 	if handler != nil {
 		l.Tracef("calling handler for command '%s'", cmdToken)
 		var err error
-		result, err = handler(ctx, ctx.args.m)
+		result, err = cd.invokeHandler(handler, ctx)
 		if err != nil {
 			l.Warnf("error processing command '%s': %s", cmdToken, err)
 			output.data = respErrorString(fmt.Sprintf("ERR Unknown command or wrong number of arguments for '%s'. Try COMMAND HELP.", ctx.cmdName))
@@ -481,6 +481,21 @@ func (cd *cmdDispatcher) dispatchHandler(ctx *cmdContext) (output respValue) {
 	l.Tracef("response: %s", string(traceJson))
 
 	return
+}
+
+// Invokes a command handler. A panic inside the handler becomes an error reply
+// for that one command, instead of terminating the process and with it every
+// other client's connection. (Handlers release their data store locks by defer.)
+func (cd *cmdDispatcher) invokeHandler(handler cmdHandler, ctx *cmdContext) (result respValue, err error) {
+	defer func() {
+		if r := recover(); r != nil {
+			ctx.l.Errorf("panic while processing command '%s': %v", ctx.cmdToken, r)
+			result = respValue{data: respErrorString(fmt.Sprintf("ERR internal error while processing '%s'", ctx.cmdName))}
+			err = nil
+		}
+	}()
+
+	return handler(ctx, ctx.args.m)
 }
 
 func (cd *cmdDispatcher) cmdDocs(filter map[string]struct{}) (output respValue) {
